@@ -32,7 +32,7 @@ def seed_all(seed: int):
     fastrand.pcg32_seed(seed % (2**31))
 
 
-def net_config(obs_space, algo="DQN", head=16, enc=16, latent=8, explicit_act=True):
+def net_config(obs_space, algo="DQN", head=16, enc=16, latent=8, explicit_act=True, max_layers=None):
     if isinstance(obs_space, (spaces.Dict, spaces.Tuple)):
         enc_cfg = {
             "latent_dim": 8,
@@ -54,8 +54,13 @@ def net_config(obs_space, algo="DQN", head=16, enc=16, latent=8, explicit_act=Tr
             enc_cfg["mlp_config"]["activation"] = "ReLU"
         else:
             enc_cfg["activation"] = "ReLU"
-    return {"latent_dim": latent, "encoder_config": enc_cfg,
-            "head_config": {"hidden_size": [head], "min_mlp_nodes": 8, "max_mlp_nodes": 64}}
+    head_cfg = {"hidden_size": [head], "min_mlp_nodes": 8, "max_mlp_nodes": 64}
+    if max_layers is not None:
+        # tight layer bound: add_layer reaches its limit (and its documented fall-back) within one or two mutations
+        head_cfg["max_hidden_layers"] = max_layers
+        head_cfg["hidden_size"] = [head] * max(1, max_layers - 1 if max_layers > 1 else 1)
+        head_cfg["max_mlp_nodes"] = 40
+    return {"latent_dim": latent, "encoder_config": enc_cfg, "head_config": head_cfg}
 
 
 def default_hp(algo):
@@ -131,7 +136,8 @@ def build(spec, hp_config=None):
     hp = default_hp(algo)
     hp.update(spec.get("hp", {}))
     first_obs = obs[0] if isinstance(obs, list) else obs
-    kw = dict(net_config=net_config(first_obs, algo, explicit_act=spec.get("netact", True)), hp_config=hp_config,
+    kw = dict(net_config=net_config(first_obs, algo, explicit_act=spec.get("netact", True), max_layers=spec.get("maxl")),
+              hp_config=hp_config,
               index=spec.get("index", 0))
     if "net" in spec:
         kw["net_config"] = copy.deepcopy(spec["net"])
@@ -348,3 +354,28 @@ def act_greedy(agent, spec, seed, n=3):
         return np.concatenate([np.asarray(a[k], dtype=np.float64).reshape(n, -1) for k in sorted(a)]
                               + [np.asarray(v[k], dtype=np.float64).reshape(n, -1) for k in sorted(v)], axis=1)
     raise ValueError(algo)
+
+
+def act_real(agent, spec, seed, k=2):
+    """k real get_action calls with exploration on (these have side effects: noise state, bandit confidence matrix, ...)"""
+    algo = spec["algo"]
+    rng = np.random.default_rng(seed)
+    seed_all(seed)
+    out = None
+    for _ in range(k):
+        if algo in BANDITS:
+            out = agent.get_action(bandit_context(spec, int(rng.integers(0, 10**6))))
+            continue
+        obs_space, _ = spaces_for(spec)
+        if algo in MULTI_OFF + MULTI_ON:
+            ids = AGENT_IDS[: len(obs_space)]
+            obs = {a: sp.sample_obs(s, 1, rng) for a, s in zip(ids, obs_space)}
+        else:
+            obs = sp.sample_obs(obs_space, 1, rng)
+        if algo in ("DQN", "DDQN", "CQN"):
+            out = agent.get_action(obs, epsilon=0.5)
+        elif algo in MULTI_OFF or algo in SINGLE_CONT:
+            out = agent.get_action(obs, training=True)
+        else:
+            out = agent.get_action(obs)
+    return out
